@@ -628,7 +628,13 @@ def scFw (d : DCfg) : Tk String := do
   let tm := (sts.drop 1).headD .ok
   let tss := ((sts.drop 2).take t.slices.length)
   let en := sts.getLastD .ok
-  pure s!"build=0 fh={stI fh} tm={stI tm} ts={",".intercalate (tss.map stI)} end={stI en} bytes={hexq d res.2.2} live=0"
+  -- the same calls again on a stream that accepts everything (the objects are unchanged)
+  let res2 := calls.foldl (fun (acc : List Status × Bytes) (w : WOut) =>
+    let r := emit none w
+    (acc.1 ++ [r.1], acc.2 ++ r.2)) ([], [])
+  let sts2 := res2.1
+  let again := s!" again:fh={stI (sts2.headD .ok)} tm={stI ((sts2.drop 1).headD .ok)} ts={",".intercalate (((sts2.drop 2).take t.slices.length).map stI)} end={stI (sts2.getLastD .ok)} bytes={hexq d res2.2}"
+  pure (s!"build=0 fh={stI fh} tm={stI tm} ts={",".intercalate (tss.map stI)} end={stI en} bytes={hexq d res.2.2}" ++ again ++ " live=0")
 
 partial def scenario (d : DCfg) : Tk String := do
   let kind ← nx
